@@ -15,6 +15,7 @@ import GlotaranProofs.Lemmas.C06LS
 import GlotaranProofs.Lemmas.C06Full
 import GlotaranProofs.Lemmas.C06Gen
 import GlotaranProofs.Lemmas.C06Linked
+import GlotaranProofs.Lemmas.C06Fin
 namespace Glotaran.C06
 open Glotaran.LinAlg Glotaran.C02
 
@@ -1230,5 +1231,115 @@ example :
       (reorderVec (alignMatrices (exampleLinked.map (·.1))).labels [25/41, 49/41, 87/82] (alignMatrices (exampleLinked.reverse.map (·.1))).labels) = true :=
   (linked_fit_perm exampleLinked exampleLinked.reverse (List.reverse_perm _) (by decide) (by decide) (by decide)
     (by decide +kernel) [25/41, 49/41, 87/82] (by decide +kernel)).1
+
+/-! ## 9. `finalize_data` regenerated from the source text (Generated/C06Fin.lean)
+
+`Generated.*Finalize` is the table the translator (harness/props/_c06_fin.py) writes on every run by executing the
+`finalize_data` function of each builtin megacomplex symbolically: which result variable is written with which dimensions,
+which label list labels its label dimension, and which expression over columns *selected by label* is reported under each
+label.  `Fin.Table.interp` gives the table its meaning (Python semantics of the label lists and loops; `np.unwrap` only
+along the series of one label; a positional / masked selection has no meaning), and the theorems below say that for every
+list of declared labels and every list of megacomplexes the result is the hand-written by-label model (`Fin.oscResult`, …)
+that the driver prints and the harness evaluates on the real result datasets. -/
+section Finalize
+open Glotaran.C06.Fin
+
+/-- damped oscillation: under label `l` amplitude = |clp l_sin, clp l_cos|, phase = unwrap(arctan2(clp l_sin, clp l_cos)) along
+    the series of `l`, `_sin` / `_cos` = the matrix columns `l_sin` / `l_cos` (3-D and 2-D branch), prefix by uniqueness -/
+theorem generated_finalize_eq_model_osc (a : Args) :
+    Generated.dampedOscillationFinalize.interp (finEnv "shape" a) = some (oscResult false a) := by
+  simp only [Table.interp, Generated.dampedOscillationFinalize, evalScalars, Scalar.eval, finEnv, megacomplexSources,
+    List.map, List.lookup]
+  by_cases h : (List.filter (fun m => m.cls == "DampedOscillationMegacomplex") a.mcs).length < 2
+  · simp [h, renderParts, Step.interp, Row.interp, Labels.eval, List.lookup, entries_amplitude, entries_phase, entries_matrix_suffix,
+      oscResult, oscPrefix, countCls]
+  · simp [if_neg h, renderParts, Step.interp, Row.interp, Labels.eval, List.lookup, entries_amplitude, entries_phase, entries_matrix_suffix,
+      oscResult, oscPrefix, countCls]
+    exact (if_neg h).symm
+
+theorem generated_finalize_eq_model_pfid (a : Args) :
+    Generated.pfidFinalize.interp (finEnv "shape" a) = some (oscResult true a) := by
+  simp only [Table.interp, Generated.pfidFinalize, evalScalars, Scalar.eval, finEnv, megacomplexSources,
+    List.map, List.lookup]
+  by_cases h : (List.filter (fun m => m.cls == "PFIDMegacomplex") a.mcs).length < 2
+  · simp [h, renderParts, Step.interp, Row.interp, Labels.eval, List.lookup, entries_amplitude, entries_phase, entries_matrix_suffix,
+      oscResult, oscPrefix, countCls]
+  · simp [if_neg h, renderParts, Step.interp, Row.interp, Labels.eval, List.lookup, entries_amplitude, entries_phase, entries_matrix_suffix,
+      oscResult, oscPrefix, countCls]
+    exact (if_neg h).symm
+
+/-- two oscillation megacomplexes in the dataset, labels b, a: the phase under `a` is built from `a_sin`, `a_cos` only -/
+example : ∃ outs, Generated.dampedOscillationFinalize.interp (finEnv "shape"
+      ⟨[⟨"DampedOscillationMegacomplex", "m1", []⟩, ⟨"DampedOscillationMegacomplex", "m2", []⟩], "m1", "d1", "spectral", "time", ["b", "a"], 0⟩) = some outs ∧
+    Out.var ⟨"m1_damped_oscillation_phase", ["spectral", "m1_damped_oscillation"], some "m1_damped_oscillation", none,
+      [("b", .unwrapAtan2 (.clp "b_sin") (.clp "b_cos")), ("a", .unwrapAtan2 (.clp "a_sin") (.clp "a_cos"))]⟩ ∈ outs :=
+  ⟨_, generated_finalize_eq_model_osc _, by decide +kernel⟩
+
+/-- the same table with the unwrap running across the labels (a vectorised `np.unwrap` with the default axis on a
+    (global, label) array) has no by-label meaning -/
+example : (Row.var [.lit "phase"] [[.attr "global_dimension"], [.lit "osc"]] (some ([.lit "osc"], .attr "self.labels")) none
+      (.unwrap .labels (.atan2 (.sel .clp "clp_label" [.var, .lit "_sin"]) (.sel .clp "clp_label" [.var, .lit "_cos"])))).interp
+      (finEnv "shape" ⟨[], "m1", "d1", "spectral", "time", ["b", "a"], 0⟩) = none := by decide +kernel
+
+/-- coherent artifact: order `i` reports the matrix column / clp under `coherent_artifact_<i>_<label>` -/
+theorem generated_finalize_eq_model_artifact (a : Args) :
+    Generated.coherentArtifactFinalize.interp (finEnv "shape" a) = some (artifactResult a) := by
+  have hm := fun ls => entries_artifact (finEnv "shape" a).base a.selfLabel rfl ls .matrix .matrixCol
+    (fun x l h => by simp [Cell.interp, h])
+  have hc := fun ls => entries_artifact (finEnv "shape" a).base a.selfLabel rfl ls .clp .clp
+    (fun x l h => by simp [Cell.interp, h])
+  simp only [finEnv] at hm hc
+  simp [Table.interp, Generated.coherentArtifactFinalize, evalScalars, finEnv, megacomplexSources,
+    renderParts, Step.interp, Row.interp, Labels.eval, List.lookup, hm, hc, artifactResult]
+
+example : (artifactResult ⟨[], "m2", "d1", "spectral", "time", [], 2⟩).length = 5 ∧
+    Out.var ⟨"coherent_artifact_associated_spectra", ["spectral", "coherent_artifact_order"], some "coherent_artifact_order", none,
+      [("1", .clp "coherent_artifact_1_m2"), ("2", .clp "coherent_artifact_2_m2")]⟩ ∈
+      artifactResult ⟨[], "m2", "d1", "spectral", "time", [], 2⟩ := by decide +kernel
+
+/-- spectral megacomplexes (model side, and the global side of a full model): species = keys of `shape` of the spectral
+    megacomplexes first seen first; under species `s` the matrix column / clp (global matrix column) under `s` -/
+theorem generated_finalize_eq_model_spectral (a : Args) :
+    Generated.spectralFinalize.interp (finEnv "shape" a) = some (spectralResult a) ∧
+    Generated.spectralFinalizeGlobal.interp (finEnv "shape" a) = some (spectralResultGlobal a) := by
+  constructor <;>
+  simp [Table.interp, Generated.spectralFinalize, Generated.spectralFinalizeGlobal, evalScalars, finEnv, megacomplexSources,
+    renderParts, Step.interp, Row.interp, Labels.eval, List.lookup, entries_matrix_var, entries_clp_var, entries_global_matrix_var,
+    spectralResult, spectralResultGlobal, itemsOfCls]
+
+example : Out.coord "species" ["s2", "s3", "s1"] ∈ spectralResult
+    ⟨[⟨"SpectralMegacomplex", "m1", ["s2", "s3"]⟩, ⟨"BaselineMegacomplex", "b", ["x"]⟩, ⟨"SpectralMegacomplex", "m2", ["s1", "s2"]⟩],
+     "m1", "d1", "spectral", "time", [], 0⟩ := by decide +kernel
+
+/-- baseline: the clp under `<dataset label>_baseline`; clp guide: nothing is written -/
+theorem generated_finalize_eq_model_baseline_guide (a : Args) :
+    Generated.baselineFinalize.interp (finEnv "shape" a) = some (baselineResult a) ∧
+    Generated.clpGuideFinalize.interp (finEnv "shape" a) = some (guideResult a) := by
+  constructor <;>
+  simp [Table.interp, Generated.baselineFinalize, Generated.clpGuideFinalize, evalScalars, finEnv, megacomplexSources,
+    renderParts, Step.interp, Row.interp, List.lookup, Cell.interp, baselineResult, guideResult]
+
+example : baselineResult ⟨[], "m", "d7", "spectral", "time", [], 0⟩ =
+    [.var ⟨"baseline", ["spectral"], none, none, [("", .clp "d7_baseline")]⟩] := by decide +kernel
+
+/-- decay megacomplexes, global side of a full model -/
+theorem generated_finalize_eq_model_decay_global (a : Args) :
+    Generated.decayFinalizeGlobal.interp (finEnv "get_compartments(dataset_model)" a) = some (decayResultGlobal a) := by
+  simp only [Table.interp, Generated.decayFinalizeGlobal, evalScalars, Scalar.eval, finEnv]
+  by_cases h : a.gdim = "pixel"
+  · simp only [renderParts, List.lookup]
+    simp [h]
+    simp [Step.interp, Row.interp, Labels.eval, renderParts, (lookup_mcs a).2, List.lookup, entries_global_matrix_var, decayResultGlobal,
+      filter_all, h]
+  · simp only [renderParts, List.lookup]
+    simp [h]
+    simp [Step.interp, Row.interp, Labels.eval, renderParts, (lookup_mcs a).2, List.lookup, entries_global_matrix_var, decayResultGlobal,
+      filter_all]
+
+/-- the three decay megacomplex classes only delegate to decay/util.py `finalize_data` -/
+theorem generated_decay_delegations :
+    Generated.decayFinalizeDelegations = [("decay", true), ("decayParallel", true), ("decaySequential", true)] := by decide
+
+end Finalize
 
 end Glotaran.C06
